@@ -379,6 +379,10 @@ class TransformRunner(aggregates.Aggregatable, Iterable[_ValueT]):
     """Gets the result from the aggregation state."""
     result = tree.TreeMapView()
     for key, fn_state in state.items():
+      # Only the states relevant to this runner, the state of a chained runner
+      # also carries the states of the other stages.
+      if key.metrics not in self.agg_fns:
+        continue
       outputs = self.agg_fns[key.metrics].get_result(fn_state)
       flattened_keys = key.metrics
       # Only convert str key to MetricKey format when there is slices.
